@@ -129,7 +129,11 @@ func (r *Recorder) Dead(proc int) bool {
 }
 
 // Log appends a non-call event (begin/end/edit/reset) with a fresh snapshot.
+// It is serialised with the visible calls: a call that is in flight (its effect applied, its event not
+// yet written) must not leak into the snapshot of another process's begin / end event.
 func (r *Recorder) Log(e Event) {
+	r.callMu.Lock()
+	defer r.callMu.Unlock()
 	r.mu.Lock()
 	defer r.mu.Unlock()
 	r.seq++
